@@ -642,6 +642,17 @@ func GenPlan(profName string, seed uint64) *Plan {
 		if g.p(500) {
 			p.Epilogue = append(p.Epilogue, Op{K: OpClear}, Op{K: OpCheckFresh})
 		}
+		if g.p(500) {
+			// a cleared cache expires and sweeps TTL entries as a new one does
+			for k := 0; k < min(nkeys, 2); k++ {
+				p.Epilogue = append(p.Epilogue, Op{K: OpSet, Key: k, Cost: 1, TTL: g.pick64(ttlMenu)})
+			}
+			p.Epilogue = append(p.Epilogue, Op{K: OpWait})
+			for _, d := range []int64{2e9, 1e10, 6e10, 6e10, 6e11, 36e11} {
+				p.Epilogue = append(p.Epilogue, Op{K: OpAdvance, TTL: d}, Op{K: OpSet, Key: nkeys, Cost: 1}, Op{K: OpWait})
+			}
+			p.Epilogue = append(p.Epilogue, Op{K: OpQuiesce, Arg: 2})
+		}
 		p.Epilogue = append(p.Epilogue, Op{K: OpClose}, Op{K: OpProbeClosed})
 		if g.p(500) {
 			p.Epilogue = append(p.Epilogue, Op{K: OpClose}, Op{K: OpClear}, Op{K: OpProbeClosed})
